@@ -54,6 +54,7 @@ if SCRATCH:
 else:
     rc, o = sh("git -C /repo status --porcelain"); assert o.strip() == "", "/repo is not clean: " + o
     rc, o = sh("git -C /repo apply %s" % patch); assert rc == 0, o
+replays_before = set(os.listdir("/verif/replays")) if os.path.isdir("/verif/replays") else set()
 try:
     for p in props:
         t0 = time.time()
@@ -66,6 +67,10 @@ try:
             os.makedirs(keep, exist_ok=True)
             if os.path.exists(v): shutil.move(v, os.path.join(keep, "caught-by-" + os.path.basename(v)))
 finally:
+    # violations reported against the changed tree are not regressions of the real one
+    if os.path.isdir("/verif/replays"):
+        for f in set(os.listdir("/verif/replays")) - replays_before:
+            os.remove(os.path.join("/verif/replays", f))
     if SCRATCH:
         sh("git -C /repo worktree remove --force %s" % ewt)
     else:
